@@ -34,6 +34,11 @@ class HoleSift:
         self.cx = FuncCtx(m, f)
         self.k = f.params[1]["name"]
         self.hp = f.params[0]["name"]
+        # single-definition locals that merely copy another variable must not be taken for the index variables by name
+        self.shadow = set()
+        for x in walk(f.body):
+            if x["kind"] == "VarDecl" and str(x.get("id", "")).startswith("inl"):
+                self.shadow.add(x["id"])
 
     # -- one abstract round -----------------------------------------------------------
     def round(self, body, env, where, rank):
@@ -53,8 +58,11 @@ class HoleSift:
         n = strip(n, casts=True)
         if n["kind"] == "DeclRefExpr":
             nm = n["ref"]["name"]
-            if nm in self.env:
+            if nm in self.env and n["ref"].get("id") not in self.shadow:
                 return self.env[nm]
+            d = self.cx.single_def(n["ref"]["id"])
+            if d is not None:
+                return self.pos(d)           # a copy of an index (e.g. the parameter of an inlined helper)
         txt = _norm(render(n))
         for nm, p in list(self.env.items()):
             if txt in ("%s<<1" % nm, "2*%s" % nm, "%s*2" % nm) and p == "K":
@@ -134,7 +142,7 @@ class HoleSift:
             for d in kids(n):
                 if d["kind"] == "VarDecl" and kids(d):
                     ini = strip(kids(d)[0], casts=True)
-                    if ini["kind"] == "MemberExpr":       # khash = heap[k].hash_index
+                    if ini["kind"] == "MemberExpr" or "*" in (d.get("type") or ""):   # khash = heap[k].hash_index; array aliases
                         continue
                     self.env[d["name"]] = self.pos(ini)
         elif k == "IfStmt":
@@ -187,14 +195,26 @@ def check_sifts(rep, rule, m):
         # working copy: a local equal to heap_count + 1 used as heap[iwc] = heap[k] before the loop
         wname = None
         for x in walk(f.body):
-            if x["kind"] == "VarDecl" and kids(x) and _norm(cx.canon(kids(x)[0])) in ("%s->heap_count+1" % hs.hp, "1+%s->heap_count" % hs.hp):
+            if x["kind"] == "VarDecl" and kids(x) and wname is None and x["id"] not in hs.shadow and \
+                    _norm(cx.canon(kids(x)[0])) in ("%s->heap_count+1" % hs.hp, "1+%s->heap_count" % hs.hp):
                 wname = x["name"]
-        pre = [(render(strip(kids(s)[0], casts=True)), render(strip(kids(s)[1], casts=True))) for s in kids(f.body)[:kids(f.body).index(lp)]
-               if s["kind"] == "BinaryOperator" and s.get("opcode") == "="]
-        post = [(render(strip(kids(s)[0], casts=True)), render(strip(kids(s)[1], casts=True))) for s in kids(f.body)[kids(f.body).index(lp) + 1:]
-                if s["kind"] == "BinaryOperator" and s.get("opcode") == "="]
-        saved = wname is not None and any(re.fullmatch(r"\w+\[%s\]" % wname, l_) and re.fullmatch(r"\w+\[%s\]" % hs.k, r_) for l_, r_ in pre)
-        restored = wname is not None and any(re.fullmatch(r"\w+\[%s\]" % hs.k, l_) and re.fullmatch(r"\w+\[%s\]" % wname, r_) for l_, r_ in post)
+        def slot_moves(stmts):
+            out = []
+            hs.env = {hs.k: "K", wname: "W"} if wname else {hs.k: "K"}
+            for s_ in stmts:
+                if s_["kind"] == "BinaryOperator" and s_.get("opcode") == "=":
+                    l_, r_ = strip(kids(s_)[0], casts=True), strip(kids(s_)[1], casts=True)
+                    if l_["kind"] == "ArraySubscriptExpr" and r_["kind"] == "ArraySubscriptExpr":
+                        try:
+                            out.append((hs.pos(kids(l_)[1]), hs.pos(kids(r_)[1])))
+                        except AnalysisBroken:
+                            pass
+            return out
+        top_ = kids(f.body)
+        pre = slot_moves(top_[:top_.index(lp)])
+        post = slot_moves(top_[top_.index(lp) + 1:])
+        saved = wname is not None and ("W", "K") in pre
+        restored = wname is not None and ("K", "W") in post
         rule.instance("%s: working copy in heap[%s] saved before / stored into the hole after the loop: %s / %s" % (fname, wname, saved, restored))
         if not (saved and restored):
             rep.finding(rule, fname, "sift:working-copy", "%s does not keep the moving tag in the scratch slot heap_count + 1 and "
@@ -216,6 +236,17 @@ def check_sifts(rep, rule, m):
             bad_guard = re.fullmatch(r"(\w+)=%s(>>1|/2)>1" % hs.k, _norm(render(cond))) is not None
             if mm:
                 env0[mm.group(1)] = "P"
+            elif lp["kind"] == "ForStmt":
+                # for (parent = k / 2; parent > 0; parent = k / 2)
+                init_, inc_ = kids(lp)[0], kids(lp)[3]
+                pv = [d for d in walk(init_) if d["kind"] == "VarDecl" and kids(d)]
+                g2 = re.fullmatch(r"(\w+)>(0|1)", _norm(render(cond)))
+                if len(pv) == 1 and g2 and g2.group(1) == pv[0]["name"] and \
+                        _norm(render(kids(pv[0])[0])) in ("%s>>1" % hs.k, "%s/2" % hs.k) and \
+                        _norm(render(inc_)) in ("%s=%s>>1" % (pv[0]["name"], hs.k), "%s=%s/2" % (pv[0]["name"], hs.k)):
+                    ok_guard = g2.group(2) == "0"
+                    bad_guard = g2.group(2) == "1"
+                    env0[pv[0]["name"]] = "P"
         rule.instance("%s: loop guard %s" % (fname, render(cond)))
         if bad_guard:
             rep.finding(rule, fname, "sift:guard", "%s: the loop guard %s stops one level early (the %s is not considered)" %
